@@ -105,6 +105,7 @@ func c06Case(c *core.Ctx, rng *rand.Rand, dir string, idx int, a *apiTrack, st *
 	os.WriteFile(wf, nil, 0o644)
 	w.Add(wf)
 	sends0 := atomic.LoadInt64(&st.sends)
+	errSends0 := atomic.LoadInt64(&st.errSends)
 	var allClosed int32 // set once every Close call has returned
 	var afterClose int64
 	evClosed, erClosed := make(chan struct{}), make(chan struct{})
@@ -183,20 +184,20 @@ func c06Case(c *core.Ctx, rng *rand.Rand, dir string, idx int, a *apiTrack, st *
 		atomic.StoreInt32(&hold, 1)
 		mq := maxQueued()
 		g0 := atomic.LoadInt64(&gotA)
-		for k := 0; k < mq+300; k++ {
+		for k := 0; k < mq+capEv+2600; k++ { // the reader takes a buffer-full and a read-full out of the kernel queue meanwhile
 			os.WriteFile(filepath.Join(dirs[0], fmt.Sprint("o", k)), nil, 0o644)
 		}
 		atomic.StoreInt32(&hold, 0)
-		// logical condition: everything queued was consumed and the reader has begun one more send (the
-		// overflow error: nothing else is queued). The cap only bounds a broken run.
+		// logical condition: a send that comes from sendError has begun (recognised on the call stack by the
+		// Send hook) - everything in front of it has been received by then. The cap only bounds a broken run.
 		for p := 0; p < 150000; p++ {
-			ne := atomic.LoadInt64(&gotA) - g0
-			if ne >= int64(mq) && atomic.LoadInt64(&st.sends)-sends0 > ne {
+			if atomic.LoadInt64(&st.errSends) > errSends0 {
 				c.Count("overflow_error_pending_at_close", 1)
 				break
 			}
 			time.Sleep(100 * time.Microsecond)
 		}
+		_ = g0
 	}
 	if point == "overflow-close-at-last-event" {
 		// whoever sends the overflow error is held right before its select (everything queued in front of it
@@ -206,7 +207,7 @@ func c06Case(c *core.Ctx, rng *rand.Rand, dir string, idx int, a *apiTrack, st *
 		atomic.StoreInt32(&gateErrorSends, 1)
 		atomic.StoreInt32(&hold, 1)
 		mq := maxQueued()
-		for k := 0; k < mq+300; k++ {
+		for k := 0; k < mq+capEv+2600; k++ { // the reader takes a buffer-full and a read-full out of the kernel queue meanwhile
 			os.WriteFile(filepath.Join(dirs[0], fmt.Sprint("o", k)), nil, 0o644)
 		}
 		atomic.StoreInt32(&hold, 0)
